@@ -15,7 +15,8 @@ VARIABLES tid, l, bad
 tvars == <<tid, l, bad, vars>>
 R == Batch[tid]
 
-FxOf(n, o) == [none_overrides |-> n, h_in_dict_order |-> o, snapshot_filter |-> FALSE, keep_block_repeats |-> TRUE]
+FxOf(n, o) == [none_overrides |-> n, h_in_dict_order |-> o, snapshot_filter |-> FALSE, keep_block_repeats |-> TRUE,
+               match_host_final_only |-> FALSE]
 \* the walk the code is expected to follow: repeats inside a block are kept unless the strict reading is on
 CodeFx == [Good EXCEPT !.keep_block_repeats = ~StrictFirstBlock]
 ObsVals(d, k) == IF Has(d, k) THEN Get(d, k) ELSE <<>>
